@@ -130,6 +130,16 @@ def parse_overlay(text, fname='<overlay>'):
                     u['inherent'] = True
                 elif k2 == 'assumed':
                     u['assumed'] = True
+                elif k2 == 'twin':
+                    # `twin <at> <id>`: the same contract is attached to a second function
+                    # `twin <at> | <id> [| a=>b ; c=>d]` (text substitutions applied to the contract)
+                    parts = [x.strip() for x in r2.split('|')]
+                    subs = []
+                    if len(parts) > 2 and parts[2]:
+                        for sub in parts[2].split(';'):
+                            a, _, b = sub.partition('=>')
+                            subs.append((a.strip(), b.strip()))
+                    u.setdefault('twins', []).append((parts[0], parts[1], subs))
                 elif k2 == 'tryconv':
                     u['tryconv'] = True
                 elif k2 == 'keep_generics':
@@ -173,6 +183,22 @@ def parse_overlay(text, fname='<overlay>'):
             if not u['file'] or not u['at']:
                 raise OverlayError(f'{fname}: unit {rest}: file/at missing')
             units.append(u)
+            for a2, i2, subs in u.get('twins', []):
+                def sb(x):
+                    for a, b in subs:
+                        x = x.replace(a, b)
+                    return x
+                t = dict(u)
+                t['at'], t['id'] = a2, i2
+                t['twins'] = []
+                t['twin_of'] = u['id']
+                t['requires'] = [(l, sb(c)) for l, c in u['requires']]
+                t['ensures'] = [(sb(l), sb(c)) for l, c in u['ensures']]
+                t['loops'] = {k: sb(v) for k, v in u['loops'].items()}
+                t['closures'] = {k: {'types': [sb(x) for x in v['types']], 'ret': sb(v['ret']), 'contract': sb(v['contract'])} for k, v in u['closures'].items()}
+                t['hints'] = [{'where': h['where'], 'anchor': h['anchor'], 'text': sb(h['text'])} for h in u['hints']]
+                t['body_open'] = sb(u['body_open'])
+                units.append(t)
         else:
             raise OverlayError(f'{fname}: unknown top-level entry {kind}')
     return files, units
